@@ -4,6 +4,7 @@ package poolsim
 
 import (
 	"encoding/json"
+	"runtime"
 	"fmt"
 	"math/rand/v2"
 	"testing"
@@ -22,6 +23,9 @@ type Task struct {
 	// Child: while it runs, the task submits this follow-up task to the same pool
 	// (typically while the waiter is already inside Wait).
 	Child *Task `json:"child,omitempty"`
+	// Goexit: the task ends its goroutine with runtime.Goexit (what t.Fatal does
+	// inside a task): it has finished, and it has finished once.
+	Goexit bool `json:"goexit,omitempty"`
 }
 
 type Round struct {
@@ -144,6 +148,21 @@ func gen(prop, tier string, r *rand.Rand, idx int) any {
 		sc.Rounds = append(sc.Rounds, rd)
 	}
 	sc.MainSubmits = r.IntN(2) == 0
+	if prop == "C12" && eff >= 2 && sc.Mode == "free" && r.IntN(8) == 0 {
+		// up to size-1 tasks end their worker goroutine with runtime.Goexit: the
+		// pool has fewer workers from then on, and every task still counts once
+		left := eff - 1
+		for ri := range sc.Rounds {
+			for si := range sc.Rounds[ri].Subs {
+				for ti := range sc.Rounds[ri].Subs[si] {
+					if left > 0 && r.IntN(4) == 0 {
+						sc.Rounds[ri].Subs[si][ti].Goexit = true
+						left--
+					}
+				}
+			}
+		}
+	}
 	if prop == "C12" && r.IntN(6) == 0 {
 		// follow-up submission from inside running tasks: at most max(size,1) tasks
 		// per round (they all start at once, the queue is empty), each may submit
@@ -275,6 +294,11 @@ func shrinkCands(x any) []any {
 					c.Rounds[i].Subs[s][k].Child = nil
 					out = append(out, c)
 				}
+				if tk.Goexit {
+					c := clone(sc)
+					c.Rounds[i].Subs[s][k].Goexit = false
+					out = append(out, c)
+				}
 				if tk.SleepMs > 0 {
 					c := clone(sc)
 					c.Rounds[i].Subs[s][k].SleepMs = 0
@@ -393,6 +417,9 @@ func run(t *testing.T, prop string, x any, cfg simrt.Config) *eng.Outcome {
 			o_nested = true
 		}
 		simrt.Emit(simrt.Event{Kind: "task_end", I: tk.ID, N: ri})
+		if tk.Goexit {
+			runtime.Goexit()
+		}
 	}
 	cfg.Lockset = true // the pool's own fields: no field is written by one task and used by another without a common lock
 	res := simrt.Run(t, cfg, func() {
